@@ -166,7 +166,17 @@ func (oa *originAnalysis) originsOfExpr(p *packages.Package, fd *ast.FuncDecl, e
 	case *ast.SelectorExpr:
 		if s := info.Selections[x]; s != nil && s.Kind() == types.FieldVal {
 			out["field:"+namedName(s.Recv())+"."+s.Obj().Name()] = true
-			add(oa.originsOfExpr(p, fd, x.X, depth+1))
+			// when the struct the field is read from was put together by a keyed literal (directly, through locals, or by
+			// the callers of this function), only what was stored under this key flows out — not the other fields
+			if fv, isVar := s.Obj().(*types.Var); isVar {
+				if proj, ok := oa.projectedOrigins(p, fd, x.X, fv.Origin(), depth+1, map[*types.Var]bool{}); ok {
+					add(proj)
+				} else {
+					add(oa.originsOfExpr(p, fd, x.X, depth+1))
+				}
+			} else {
+				add(oa.originsOfExpr(p, fd, x.X, depth+1))
+			}
 			if oa.fieldCells {
 				if fv, ok := s.Obj().(*types.Var); ok && (oa.fieldCellFilter == nil || oa.fieldCellFilter(fv.Origin())) {
 					add(oa.originsOfField(fv.Origin(), depth+1))
@@ -440,4 +450,179 @@ func (oa *originAnalysis) originsOfField(field *types.Var, depth int) map[string
 	}
 	oa.fieldCache[field] = out
 	return out
+}
+
+// projectedOrigins: the origins of field `field` of the struct value denoted by base, when every way the value comes
+// about is a keyed composite literal of the module (possibly through local variables and parameters bound at static
+// call sites). ok=false when some definition is anything else (a call result, a decoded value, an element of a
+// collection): the caller then falls back to the origins of the whole value.
+func (oa *originAnalysis) projectedOrigins(p *packages.Package, fd *ast.FuncDecl, base ast.Expr, field *types.Var, depth int, busy map[*types.Var]bool) (map[string]bool, bool) {
+	out := map[string]bool{}
+	if depth > 12 {
+		return nil, false
+	}
+	info := p.TypesInfo
+	base = ast.Unparen(base)
+	if u, ok := base.(*ast.UnaryExpr); ok && u.Op == token.AND {
+		base = ast.Unparen(u.X)
+	}
+	switch x := base.(type) {
+	case *ast.CompositeLit:
+		st, ok := info.TypeOf(x).Underlying().(*types.Struct)
+		if !ok {
+			return nil, false
+		}
+		has := false
+		for i := 0; i < st.NumFields(); i++ {
+			if st.Field(i).Origin() == field {
+				has = true
+			}
+		}
+		if !has {
+			return nil, false
+		}
+		for _, el := range x.Elts {
+			kv, ok := el.(*ast.KeyValueExpr)
+			if !ok {
+				return nil, false // positional literal
+			}
+			if k, ok := kv.Key.(*ast.Ident); ok {
+				if kvv, ok := info.Uses[k].(*types.Var); ok && kvv.Origin() == field {
+					for t := range oa.originsOfExpr(p, fd, kv.Value, depth+1) {
+						out[t] = true
+					}
+				}
+			}
+		}
+		return out, true
+	case *ast.Ident:
+		v, ok := info.Uses[x].(*types.Var)
+		if !ok || v.IsField() || busy[v] {
+			return nil, false
+		}
+		busy[v] = true
+		defer delete(busy, v)
+		// the function that declares v
+		var owner *ast.FuncDecl
+		var ownerFn *types.Func
+		var ownerPkg *packages.Package
+		for fn, d := range oa.cg.Decl {
+			if d.Body != nil && d.Pos() <= v.Pos() && v.Pos() <= d.End() && oa.cg.PkgOf[fn].Types == v.Pkg() && oa.cg.PkgOf[fn].Fset == p.Fset {
+				owner, ownerFn, ownerPkg = d, fn, oa.cg.PkgOf[fn]
+			}
+		}
+		if owner == nil {
+			return nil, false
+		}
+		oinfo := ownerPkg.TypesInfo
+		ndefs := 0
+		okAll := true
+		consider := func(dp *packages.Package, dfd *ast.FuncDecl, e ast.Expr) {
+			ndefs++
+			m, ok := oa.projectedOrigins(dp, dfd, e, field, depth+1, busy)
+			if !ok {
+				okAll = false
+				return
+			}
+			for t := range m {
+				out[t] = true
+			}
+		}
+		// parameter: the arguments at the static call sites
+		pidx := -1
+		if owner.Type.Params != nil {
+			i := 0
+			for _, pl := range owner.Type.Params.List {
+				for _, nm := range pl.Names {
+					if oinfo.Defs[nm] == types.Object(v) {
+						pidx = i
+					}
+					i++
+				}
+			}
+		}
+		if pidx >= 0 {
+			resolved := false
+			for _, e := range oa.cg.In[ownerFn] {
+				if e.Kind != "static" {
+					return nil, false
+				}
+				cd := oa.cg.Decl[e.From]
+				call := findCallAt(cd, e.Pos)
+				if call == nil || pidx >= len(call.Args) {
+					return nil, false
+				}
+				resolved = true
+				consider(oa.cg.PkgOf[e.From], cd, call.Args[pidx])
+			}
+			if !resolved {
+				return nil, false
+			}
+		}
+		ast.Inspect(owner.Body, func(n ast.Node) bool {
+			switch st := n.(type) {
+			case *ast.AssignStmt:
+				for i, l := range st.Lhs {
+					lid, ok := ast.Unparen(l).(*ast.Ident)
+					if ok {
+						obj := oinfo.Defs[lid]
+						if obj == nil {
+							obj = oinfo.Uses[lid]
+						}
+						if obj == types.Object(v) {
+							if len(st.Lhs) == len(st.Rhs) {
+								consider(ownerPkg, owner, st.Rhs[i])
+							} else {
+								okAll = false
+							}
+						}
+						continue
+					}
+					// a later store into the field itself: v.field = value
+					if ls, ok := ast.Unparen(l).(*ast.SelectorExpr); ok && len(st.Lhs) == len(st.Rhs) {
+						if sl := oinfo.Selections[ls]; sl != nil {
+							if fv, ok := sl.Obj().(*types.Var); ok && fv.Origin() == field {
+								if bid, ok := ast.Unparen(ls.X).(*ast.Ident); ok && oinfo.Uses[bid] == types.Object(v) {
+									ndefs++
+									for t := range oa.originsOfExpr(ownerPkg, owner, st.Rhs[i], depth+1) {
+										out[t] = true
+									}
+								}
+							}
+						}
+					}
+				}
+			case *ast.ValueSpec:
+				for i, nm := range st.Names {
+					if oinfo.Defs[nm] == types.Object(v) {
+						if i < len(st.Values) {
+							consider(ownerPkg, owner, st.Values[i])
+						} else if len(st.Values) == 0 {
+							ndefs++ // zero value
+						} else {
+							okAll = false
+						}
+					}
+				}
+			case *ast.RangeStmt:
+				for _, kv := range []ast.Expr{st.Key, st.Value} {
+					if id, ok := kv.(*ast.Ident); ok && oinfo.Defs[id] == types.Object(v) {
+						okAll = false
+					}
+				}
+			case *ast.UnaryExpr:
+				if st.Op == token.AND {
+					if id, ok := ast.Unparen(st.X).(*ast.Ident); ok && oinfo.Uses[id] == types.Object(v) {
+						okAll = false // the address escapes: stores through it are not seen
+					}
+				}
+			}
+			return true
+		})
+		if !okAll || ndefs == 0 {
+			return nil, false
+		}
+		return out, true
+	}
+	return nil, false
 }
